@@ -11,8 +11,9 @@ VARIABLE l
 Trace == ndJsonDeserialize(TraceFile)
 
 Install(st) ==
-  /\ stored' = st.stored /\ bridgerOf' = st.bridgerOf /\ extOf' = st.extOf
+  /\ stored' = st.stored /\ bridgerOf' = st.bridgerOf /\ bridgerIdx' = st.bridgerIdx /\ extOf' = st.extOf
   /\ confirms' = st.confirms /\ valid' = st.valid /\ stray' = st.stray
+  /\ edits' = 0
 
 PInit == Init /\ l = 1
 PNext == /\ l <= Len(Trace) /\ l' = l + 1
@@ -22,6 +23,7 @@ PSpec == PInit /\ [][PNext]_<<vars, l>>
 R(A) == op'.name = "Reset" \/ A
 P_C12_KeptOnce                   == [][R(A_C12_KeptOnce)]_<<vars, l>>
 P_C12_OnlyBridgerOfThatOracle    == [][R(A_C12_OnlyBridgerOfThatOracle)]_<<vars, l>>
+P_C12_BridgerReplacedOnlyByEdit  == [][R(A_C12_BridgerReplacedOnlyByEdit)]_<<vars, l>>
 P_C12_NoCrossUse                 == [][R(A_C12_NoCrossUse)]_<<vars, l>>
 P_C12_ConfirmTouchesOnlyConfirms == [][R(A_C12_ConfirmTouchesOnlyConfirms)]_<<vars, l>>
 
